@@ -13,8 +13,8 @@
                          p = 0..P-1) is inverted by the ring's `rinv` (left inverse)
      lwr_inv             the forward/backward invariants of the recursion at order p
      meq n               equality of n x n matrices over Q (the executable instance mat_ops n)  *)
-From Coq Require Import List Arith QArith Bool Lia Setoid Morphisms.
-From NT Require Import Sums LWR LWRP.
+From Coq Require Import List Arith QArith Bool Lia Lqa Setoid Morphisms.
+From NT Require Import Sums LWR LWRP LWRPosDef.
 Import ListNotations.
 
 (* ---- the recursion solves the block Yule-Walker system, for every order and every ring ---- *)
@@ -99,10 +99,9 @@ Theorem C11_lwr_solves_block_YW_matrices :
 Proof. exact lwr_solves_block_YW_mat_lemma. Qed.
 Print Assumptions C11_lwr_solves_block_YW_matrices.
 
-(* Positive-definiteness of the innovation covariance.  Full statement (not proved):
-     r block-Toeplitz positive definite -> sigma positive definite.
-   Proved part: sigma is symmetric and equals sum_i A(i) R(-i) (above); definiteness is checked
-   numerically on every generated case (eigvalsh) — partial. *)
+(* Symmetry of the innovation covariance from the equations and the identity alone (any ring).
+   (Historical name: this used to be the only proved part of "symmetric positive definite";
+   positive-definiteness is now proved below, C11_sigma_positive_definite.) *)
 Theorem C11_sigma_symmetric_partial :
   forall (R : Type) (O : rops R) (req : R -> R -> Prop), ring_laws O req ->
   forall r a sigma P,
@@ -111,6 +110,53 @@ Theorem C11_sigma_symmetric_partial :
     req (rsum O (fun i => rmul O (coefA O a i) (Rlag O r 0 i)) (S P)) sigma ->
     req (rtr O sigma) sigma.
 Proof. exact (@sigma_symmetric). Qed.
+
+(* ---- positive-definiteness of the innovation covariance (matrices over Q) ----
+   vectors are functions on indices < n;  bform n x M y = x^T M y;
+   qformT n r P w = w^T T w for the stacked vector w = (w 0, ..., w P) and the block-Toeplitz
+   matrix T of the lags, block (i, j) = R(j - i);  vnonzero n v = some component below n is not 0.
+   sigma = Abar T Abar^T with Abar = [I, A(1), ..., A(P)], so v^T sigma v = w^T T w for
+   w = Abar^T v, whose first block is v. *)
+Theorem C11_sigma_quadratic_form :
+  forall n (r a : list mat) (sigma : mat) P,
+    (forall k, (1 <= k <= P)%nat ->
+       meq n (rsum (mat_ops n) (fun i => mmul n (coefA (mat_ops n) a i) (Rlag (mat_ops n) r k i)) (S P)) (mzero n)) ->
+    meq n (rsum (mat_ops n) (fun i => mmul n (coefA (mat_ops n) a i) (Rlag (mat_ops n) r 0 i)) (S P)) sigma ->
+    forall v, bform n v sigma v == qformT n r P (wvec n a v) /\
+              (forall b, (b < n)%nat -> wvec n a v 0%nat b == v b).
+Proof.
+  intros n r a sigma P HF HF0 v. split.
+  - exact (sigma_quadratic_form n r a sigma P HF HF0 v).
+  - intros b Hb. apply wvec_first. exact Hb.
+Qed.
+
+Theorem C11_sigma_positive_definite :
+  forall n (r : list mat) P,
+    length r = S P ->
+    meq n (mtr n (nth 0 r (mzero n))) (nth 0 r (mzero n)) ->
+    steps_ok (mat_ops n) (meq n) r P ->
+    (* the block-Toeplitz matrix of the lags is positive definite *)
+    (forall w, (exists i, (i <= P)%nat /\ vnonzero n (w i)) -> 0 < qformT n r P w) ->
+    (* then so is the innovation covariance returned by the recursion *)
+    forall v, vnonzero n v -> 0 < bform n v (snd (lwr_recursion (mat_ops n) r)) v.
+Proof. exact lwr_sigma_positive_definite_lemma. Qed.
+Print Assumptions C11_sigma_positive_definite.
+
+(* the same for any (a, sigma) satisfying the block equations; and the semidefinite version *)
+Theorem C11_sigma_positive_definite_of_YW :
+  forall n (r a : list mat) (sigma : mat) P,
+    (forall k, (1 <= k <= P)%nat ->
+       meq n (rsum (mat_ops n) (fun i => mmul n (coefA (mat_ops n) a i) (Rlag (mat_ops n) r k i)) (S P)) (mzero n)) ->
+    meq n (rsum (mat_ops n) (fun i => mmul n (coefA (mat_ops n) a i) (Rlag (mat_ops n) r 0 i)) (S P)) sigma ->
+    ((forall w, (exists i, (i <= P)%nat /\ vnonzero n (w i)) -> 0 < qformT n r P w) ->
+     forall v, vnonzero n v -> 0 < bform n v sigma v) /\
+    ((forall w, 0 <= qformT n r P w) -> forall v, 0 <= bform n v sigma v).
+Proof.
+  intros n r a sigma P HF HF0. split.
+  - exact (sigma_positive_definite_lemma n r a sigma P HF HF0).
+  - exact (sigma_positive_semidefinite_lemma n r a sigma P HF HF0).
+Qed.
+Print Assumptions C11_sigma_positive_definite_of_YW.
 
 (* ---- relabelling channels permutes the result ---- *)
 (* every step commutes with a map phi that respects the ring operations, transposition and the
@@ -385,3 +431,54 @@ Example C11_ex_generate_mar :
   let X := generate_mar_from Qminus Qmult 0 0 [1#2; -(1#4)] [1; 2; 3; 4] in
   X = [1; 3 # 2; 5 # 2; 25 # 8]%Q \/ Forall2 Qeq X [1; 3 # 2; 5 # 2; 25 # 8].
 Proof. right. vm_compute. repeat constructor. Qed.
+
+(* positive-definiteness: two channels, order 1, lags with a non-symmetric R(1); the block-Toeplitz
+   form is 2(a^2+b^2+c^2+d^2) + a d = 3/2 a^2 + 3/2 d^2 + 1/2 (a+d)^2 + 2 b^2 + 2 c^2 *)
+Definition pd_r : list mat := [ [[2; 0]; [0; 2]];  [[0; 1#2]; [0; 0]] ].
+Lemma pd_blocks :
+  Rlag (mat_ops 2) pd_r 0 0 = [[2; 0]; [0; 2]] /\ Rlag (mat_ops 2) pd_r 1 1 = [[2; 0]; [0; 2]] /\
+  Rlag (mat_ops 2) pd_r 1 0 = [[0; 1#2]; [0; 0]] /\ Rlag (mat_ops 2) pd_r 0 1 = [[0; 0]; [1#2; 0]].
+Proof. vm_compute. repeat split. Qed.
+Lemma sq_pos (x : Q) : ~ x == 0 -> 0 < x * x.
+Proof.
+  intros H. destruct (Qlt_le_dec 0 (x * x)) as [|Hle]; [assumption|].
+  exfalso. apply H. pose proof (sq_nonneg x). assert (E : x * x == 0) by lra.
+  destruct (Qmult_integral _ _ E); assumption.
+Qed.
+Lemma pd_form w :
+  qformT 2 pd_r 1 w ==
+  2 * (w O O * w O O + w O (S O) * w O (S O) + w (S O) O * w (S O) O + w (S O) (S O) * w (S O) (S O))
+  + w O O * w (S O) (S O).
+Proof.
+  destruct pd_blocks as (B00 & B11 & B10 & B01).
+  unfold qformT, bform, vdot, mvec. cbn [sumn]. rewrite B00, B11, B10, B01. cbn [mget nth]. ring.
+Qed.
+Example C11_ex_block_toeplitz_pd :
+  forall w, (exists i, (i <= 1)%nat /\ vnonzero 2 (w i)) -> 0 < qformT 2 pd_r 1 w.
+Proof.
+  intros w (i & Hi & b & Hb & Hnz). rewrite pd_form.
+  pose proof (sq_nonneg (w O O)) as Ha. pose proof (sq_nonneg (w O (S O))) as Hb'.
+  pose proof (sq_nonneg (w (S O) O)) as Hc. pose proof (sq_nonneg (w (S O) (S O))) as Hd.
+  pose proof (sq_nonneg (w O O + w (S O) (S O))) as Hs.
+  pose proof (sq_pos _ Hnz) as Hp.
+  destruct i as [|[|i]]; [| |lia]; destruct b as [|[|b]]; try lia; lra.
+Qed.
+Lemma pd_ok0 : let '(_, _, sf, sb) := lwr_run (mat_ops 2) pd_r 0 in
+  meqb 2 (mmul 2 (minv 2 sf) sf) (mid 2) && meqb 2 (mmul 2 (minv 2 sb) sb) (mid 2) = true.
+Proof. vm_compute. reflexivity. Qed.
+Example C11_ex_posdef_hypotheses_met :
+  length pd_r = 2%nat /\ meq 2 (mtr 2 (nth 0 pd_r (mzero 2))) (nth 0 pd_r (mzero 2)) /\
+  steps_ok (mat_ops 2) (meq 2) pd_r 1 /\
+  (forall w, (exists i, (i <= 1)%nat /\ vnonzero 2 (w i)) -> 0 < qformT 2 pd_r 1 w) /\
+  vnonzero 2 (fun a => if Nat.eqb a 0 then 1 else -(1)).
+Proof.
+  split; [reflexivity|]. split; [apply meqb_sound; vm_compute; reflexivity|]. split.
+  - intros p Hp. destruct p as [|p]; [|lia].
+    pose proof pd_ok0 as H. destruct (lwr_run (mat_ops 2) pd_r 0) as [[[a b] sf] sb].
+    apply andb_prop in H as [H1 H2]. split; apply meqb_sound; assumption.
+  - split; [exact C11_ex_block_toeplitz_pd|]. exists 0%nat. split; [lia|]. simpl. intros H; discriminate H.
+Qed.
+(* and the resulting innovation covariance of the example, [[15/8, 0], [0, 2]] *)
+Lemma C11_ex_posdef_sigma :
+  meqb 2 (snd (lwr_recursion (mat_ops 2) pd_r)) [[15#8; 0]; [0; 2]] = true.
+Proof. vm_compute. reflexivity. Qed.
